@@ -10,6 +10,7 @@ mod w_splits;
 mod w_merkle;
 mod w_airdrop;
 mod w_migrate;
+mod oe_world;
 mod c01;
 mod c02;
 mod c03;
